@@ -93,3 +93,106 @@ package carddav
 //@   loop 1 invariant J5a: let k : #i in forall j :: 0 <= j && j <= k ==> 0 <= old(cnt(query, aos, j)) && old(cnt(query, aos, j)) <= old(cnt(query, aos, k))
 //@   loop 1 invariant J5b: let k : #i in forall j :: 0 <= j && j < k && old(qHolds(query, aos[j].Card)) ==> old(cnt(query, aos, j)) < old(cnt(query, aos, k))
 //@   loop 1 invariant J6: let k : #i in k < len(aos) ==> old(cnt(query, aos, k + 1)) == old(cnt(query, aos, k)) + (old(qHolds(query, aos[k].Card)) ? 1 : 0)
+
+//@ -- ---------------------------------------------------------------------------------------
+//@ -- C09: addressbook-query across the wire. Relations between the public values and the wire structs,
+//@ -- field by field from RFC 6352 section 10.5 (w: wire struct, p: public value).
+//@ spec tmRel(w textMatch, t TextMatch) bool = w.Text == t.Text && bool(w.NegateCondition) == t.NegateCondition && string(w.MatchType) == string(t.MatchType)
+//@ spec paramRel(w paramFilter, p ParamFilter) bool = w.Name == p.Name && (w.IsNotDefined != nil) == p.IsNotDefined
+//@   | && (w.TextMatch != nil) == (p.TextMatch != nil) && (w.TextMatch != nil ==> tmRel(*w.TextMatch, *p.TextMatch))
+//@ spec opaque propRel(w propFilter, p PropFilter) bool = w.Name == p.Name && string(w.Test) == string(p.Test) && (w.IsNotDefined != nil) == p.IsNotDefined
+//@   | && len(w.TextMatches) == len(p.TextMatches) && (forall j :: 0 <= j && j < len(p.TextMatches) ==> tmRel(w.TextMatches[j], p.TextMatches[j]))
+//@   | && len(w.Params) == len(p.Params) && (forall j :: 0 <= j && j < len(p.Params) ==> paramRel(w.Params[j], p.Params[j]))
+//@ spec paramEq(a ParamFilter, b ParamFilter) bool = a.Name == b.Name && a.IsNotDefined == b.IsNotDefined
+//@   | && (a.TextMatch != nil) == (b.TextMatch != nil) && (a.TextMatch != nil ==> *a.TextMatch == *b.TextMatch)
+//@ spec propEq(a PropFilter, b PropFilter) bool = a.Name == b.Name && a.Test == b.Test && a.IsNotDefined == b.IsNotDefined
+//@   | && len(a.TextMatches) == len(b.TextMatches) && (forall j :: 0 <= j && j < len(b.TextMatches) ==> a.TextMatches[j] == b.TextMatches[j])
+//@   | && len(a.Params) == len(b.Params) && (forall j :: 0 <= j && j < len(b.Params) ==> paramEq(a.Params[j], b.Params[j]))
+
+//@ func carddav.encodeTextMatch(tm) (w)
+//@   requires R1: tm != nil
+//@   ensures T1: w != nil && fresh(w) && tmRel(*w, *tm) && w.Collation == ""
+//@ func carddav.decodeTextMatch(tm) (t)
+//@   requires R1: tm != nil
+//@   ensures T1: t != nil && fresh(t) && tmRel(*tm, *t)
+//@ func carddav.verifTextMatchRoundTrip(tm) (r)
+//@   requires R1: tm != nil
+//@   ensures RT: r != nil && *r == *tm
+
+//@ func carddav.encodeParamFilter(pf) (w, err)
+//@   requires R1: pf != nil
+//@   ensures P1: err == nil <==> !(pf.IsNotDefined && pf.TextMatch != nil)
+//@   ensures P2: err == nil ==> w != nil && fresh(w) && paramRel(*w, *pf)
+//@   ensures P3: err != nil ==> w == nil
+//@ func carddav.decodeParamFilter(el) (p, err)
+//@   requires R1: el != nil
+//@   ensures P1: err == nil <==> !(el.IsNotDefined != nil && el.TextMatch != nil)
+//@   ensures P2: err == nil ==> p != nil && fresh(p) && paramRel(*el, *p)
+//@   ensures P3: err != nil ==> p == nil && httpCode(err) == -1
+//@ func carddav.verifParamFilterRoundTrip(pf) (r, err)
+//@   requires R1: pf != nil
+//@   ensures RT1: err == nil <==> !(pf.IsNotDefined && pf.TextMatch != nil)
+//@   ensures RT2: err == nil ==> r != nil && paramEq(*r, *pf)
+
+//@ func carddav.encodePropFilter(pf) (w, err)
+//@   reveal propRel
+//@   requires R1: pf != nil
+//@   requires R2: forall j :: 0 <= j && j < len(pf.Params) ==> !(pf.Params[j].IsNotDefined && pf.Params[j].TextMatch != nil)
+//@   ensures F1: err == nil <==> !(pf.IsNotDefined && (len(pf.TextMatches) > 0 || len(pf.Params) > 0))
+//@   ensures F2: err == nil ==> w != nil && fresh(w) && propRel(*w, *pf)
+//@   ensures F3: err != nil ==> w == nil
+//@   loop 1 invariant A1: el != nil && fresh(el) && el.Name == pf.Name && string(el.Test) == string(pf.Test) && (el.IsNotDefined != nil) == pf.IsNotDefined && len(el.Params) == 0
+//@   loop 1 invariant A2: len(el.TextMatches) == #i && (cap(el.TextMatches) == 0 || fresh(el.TextMatches)) && (forall j :: 0 <= j && j < #i ==> tmRel(el.TextMatches[j], pf.TextMatches[j]))
+//@   loop 2 invariant B1: el != nil && fresh(el) && el.Name == pf.Name && string(el.Test) == string(pf.Test) && (el.IsNotDefined != nil) == pf.IsNotDefined
+//@   loop 2 invariant B2: len(el.TextMatches) == len(pf.TextMatches) && (forall j :: 0 <= j && j < len(pf.TextMatches) ==> tmRel(el.TextMatches[j], pf.TextMatches[j]))
+//@   loop 2 invariant B3: len(el.Params) == #i && (cap(el.Params) == 0 || fresh(el.Params)) && (forall j :: 0 <= j && j < #i ==> paramRel(el.Params[j], pf.Params[j]))
+//@ func carddav.decodePropFilter(el) (p, err)
+//@   reveal propRel
+//@   requires R1: el != nil
+//@   ensures F1: err == nil <==> !(el.IsNotDefined != nil && (len(el.TextMatches) > 0 || len(el.Params) > 0))
+//@   |   && (forall j :: 0 <= j && j < len(el.Params) ==> !(el.Params[j].IsNotDefined != nil && el.Params[j].TextMatch != nil))
+//@   ensures F2: err == nil ==> p != nil && fresh(p) && propRel(*el, *p)
+//@   ensures F3: err != nil ==> p == nil && httpCode(err) == -1
+//@   loop 1 invariant A1: pf != nil && fresh(pf) && pf.Name == el.Name && string(pf.Test) == string(el.Test) && pf.IsNotDefined == (el.IsNotDefined != nil) && len(pf.Params) == 0
+//@   loop 1 invariant A2: len(pf.TextMatches) == #i && (cap(pf.TextMatches) == 0 || fresh(pf.TextMatches)) && (forall j :: 0 <= j && j < #i ==> tmRel(el.TextMatches[j], pf.TextMatches[j]))
+//@   loop 2 invariant B1: pf != nil && fresh(pf) && pf.Name == el.Name && string(pf.Test) == string(el.Test) && pf.IsNotDefined == (el.IsNotDefined != nil)
+//@   loop 2 invariant B2: len(pf.TextMatches) == len(el.TextMatches) && (forall j :: 0 <= j && j < len(el.TextMatches) ==> tmRel(el.TextMatches[j], pf.TextMatches[j]))
+//@   loop 2 invariant B3: len(pf.Params) == #i && (cap(pf.Params) == 0 || fresh(pf.Params)) && (forall j :: 0 <= j && j < #i ==> paramRel(el.Params[j], pf.Params[j]))
+//@   loop 2 invariant B4: forall j :: 0 <= j && j < #i ==> !(el.Params[j].IsNotDefined != nil && el.Params[j].TextMatch != nil)
+//@ func carddav.verifPropFilterRoundTrip(pf) (r, err)
+//@   reveal propRel
+//@   requires R1: pf != nil
+//@   requires R2: forall j :: 0 <= j && j < len(pf.Params) ==> !(pf.Params[j].IsNotDefined && pf.Params[j].TextMatch != nil)
+//@   ensures RT1: err == nil <==> !(pf.IsNotDefined && (len(pf.TextMatches) > 0 || len(pf.Params) > 0))
+//@   ensures RT2: err == nil ==> r != nil && propEq(*r, *pf)
+
+//@ -- C09 server side: the backend is handed the query the wire structs denote (r.URL.Path unchanged)
+//@ spec dataReqRel(d AddressDataRequest, w addressDataReq) bool = d.AllProp == (w.Allprop != nil) && len(d.Props) == len(w.Props)
+//@   | && (forall j :: 0 <= j && j < len(w.Props) ==> d.Props[j] == w.Props[j].Name)
+//@ func carddav.decodeAddressDataReq(addressData) (req, err)
+//@   requires R1: addressData != nil
+//@   ensures D1: err == nil <==> !(addressData.Allprop != nil && len(addressData.Props) > 0)
+//@   ensures D2: err == nil ==> req != nil && fresh(req) && dataReqRel(*req, *addressData)
+//@   ensures D3: err != nil ==> req == nil && httpCode(err) == 400
+//@   loop 1 invariant I1: req != nil && fresh(req) && req.AllProp == (addressData.Allprop != nil) && len(req.Props) == #i
+//@   |   && (cap(req.Props) == 0 || fresh(req.Props)) && (forall j :: 0 <= j && j < #i ==> req.Props[j] == addressData.Props[j].Name)
+//@ func carddav.(*backend).propFindAddressObject(b, ctx, propfind, ao) (resp, err)
+//@   trusted C11
+//@   requires R1: b != nil && propfind != nil && ao != nil
+//@   ensures P1: err == nil ==> resp != nil
+//@   ensures P2: err != nil ==> okErr(err)
+//@ spec queryDenotes(q *AddressBookQuery, w *addressbookQuery) bool = string(q.FilterTest) == string(w.Filter.Test)
+//@   | && len(q.PropFilters) == len(w.Filter.Props) && (forall j :: 0 <= j && j < len(w.Filter.Props) ==> propRel(w.Filter.Props[j], q.PropFilters[j]))
+//@   | && (w.Limit == nil ? q.Limit == 0 : q.Limit == int(w.Limit.NResults))
+//@   | && (w.Prop != nil && decodedOk(w.Prop, "addressDataReq") ==> dataReqRel(q.DataRequest, decoded(w.Prop, "addressDataReq")))
+//@ func carddav.(*Handler).handleQuery(h, r, w, query) (err)
+//@   requires R1: h != nil && h.Backend != nil && validReq(r) && w != nil && wstatus(w) == 0 && query != nil
+//@   requires R2: qaoCalls == 0
+//@   ensures Q1: qaoCalls <= 1 && (qaoCalls == 1 ==> qaoPath == r.URL.Path && qaoQuery != nil && queryDenotes(qaoQuery, query))
+//@   ensures Q2: err != nil ==> okErr(err)
+//@   ensures Q3: mutations == old(mutations)
+//@   ensures Q4: err == nil ==> wstatus(w) == 207
+//@   loop 1 invariant I1: qaoCalls == 0 && mutations == old(mutations) && wstatus(w) == 0 && string(q.FilterTest) == string(query.Filter.Test) && q.Limit == 0
+//@   |   && (query.Prop != nil && decodedOk(query.Prop, "addressDataReq") ==> dataReqRel(q.DataRequest, decoded(query.Prop, "addressDataReq")))
+//@   loop 1 invariant I2: len(q.PropFilters) == #i && (cap(q.PropFilters) == 0 || fresh(q.PropFilters)) && (forall j :: 0 <= j && j < #i ==> propRel(query.Filter.Props[j], q.PropFilters[j]))
+//@   loop 2 invariant I3: qaoCalls == 1 && qaoPath == r.URL.Path && qaoQuery == q && queryDenotes(q, query) && mutations == old(mutations) && wstatus(w) == 0
